@@ -157,7 +157,7 @@ Section PermSums.
     rewrite (Hs j i) by assumption. reflexivity.
   Qed.
 
-  Lemma kernel_matrix_of_sym n kern i j :
+  Lemma kernel_matrix_of_sym n (kern : mat F) i j :
     msym n kern -> i < n -> j < n -> kernel_matrix kern i j = kern i j.
   Proof.
     intros Hs Hi Hj. unfold kernel_matrix. destruct (Nat.leb i j); [reflexivity|].
